@@ -1,7 +1,8 @@
 (* Re-checked on every run against the definitions REGENERATED (gen/c09_py2coq.py) from the current source of
      quara/protocol/qtomography/standard/standard_qtomography.py            StandardQTomography.is_fullrank_matA
      quara/protocol/qtomography/standard/linear_estimator.py                LinearEstimator.calc_estimate_sequence, calc_estimate
-     quara/protocol/qtomography/standard/standard_qtomography_estimator.py  estimated_var, estimated_var_sequence
+     quara/protocol/qtomography/standard/standard_qtomography_estimator.py  estimated_var, estimated_var_sequence,
+                                                                            estimated_qoperation, estimated_qoperation_sequence
    The regenerated functions equal the hand-written model (Model/C09_LinEst.v: coded_guard, calc_estimate_sequence,
    calc_estimate, estimated_var) on ALL inputs, hence the property theorems hold for them.  A source change that alters
    the glue (which guard is consulted / how it is negated, rank compared with another dimension, operand order or a
@@ -139,6 +140,38 @@ Theorem gen_sample_counts_irrelevant : forall (q : qtomo F) sq sq' flag, qt_wf q
   gen_calc_estimate_sequence q sq flag = gen_calc_estimate_sequence q sq' flag.
 Proof. intros q sq sq' flag Hwf H. rewrite !gen_calc_estimate_sequence_eq by exact Hwf.
   now rewrite (counts_irrelevant F _ _ _ _ sq sq' H). Qed.
+(* ------------------------------------------------------------------ estimated_qoperation / estimated_qoperation_sequence
+   ([gfv] = the template object's generate_from_var, abstract) *)
+Theorem gen_estimated_qoperation_eq : forall (Obj : Type) (gfv : list F -> Obj) (r : est_result F) o,
+  gen_estimated_qoperation gfv r = PyOk o -> o = gfv (estimated_var (r_vars r)).
+Proof. intros Obj gfv [xs] o. unfold gen_estimated_qoperation, estimated_var. cbn [r_vars].
+  destruct xs as [|y t]; cbn; [discriminate|]. now intros [= <-]. Qed.
+Theorem gen_estimated_qoperation_sequence_eq : forall (Obj : Type) (gfv : list F -> Obj) (r : est_result F),
+  gen_estimated_qoperation_sequence gfv r = map gfv (estimated_var_sequence (r_vars r)).
+Proof. intros Obj gfv [xs]. reflexivity. Qed.
+
+Lemma list_eq_of_veq n : forall (x y : list F), length x = n -> length y = n -> veq n (vofl x) (vofl y) -> x = y.
+Proof. induction n as [|n IH]; intros [|a x] [|c y] Hx Hy H; cbn in *; try discriminate; [reflexivity|].
+  f_equal; [exact (H 0%nat (Nat.lt_0_succ n))|].
+  apply IH; [lia|lia|]. intros i Hi. exact (H (S i) (proj1 (Nat.succ_lt_mono i n) Hi)). Qed.
+
+(* END TO END on the regenerated code: informationally complete tester set, the exact outcome distributions of the object
+   with variables vl in the (single) dataset -> calc_estimate returns, and estimated_qoperation of its result is the
+   object generated from vl; with generate_from_var (to_var o) = o this is the object itself *)
+Theorem gen_exact_data_returns_object : forall (Obj : Type) (gfv : list F -> Obj) (q : qtomo F) (ds : dataset F) flag (vl : list F),
+  qt_wf q -> gen_is_fullrank_matA q = true -> length vl = qt_n q ->
+  ds <> [] -> length (concat (map snd ds)) = qt_m q ->
+  veq (qt_m q) (vofl (concat (map snd ds))) (predict (qt_n q) (qt_A q) (vofl (qt_b q)) (vofl vl)) ->
+  exists r, gen_calc_estimate q ds flag = PyOk r /\ gen_estimated_qoperation gfv r = PyOk (gfv vl) /\
+            gen_estimated_qoperation_sequence gfv r = [gfv vl].
+Proof. intros Obj gfv q ds flag vl Hwf Hg Hvl H1 H2 H3.
+  destruct (gen_complete_tester_set_recovers q [ds] flag (vofl vl) Hwf Hg) as [r [Hr [Hlen Hall]]].
+  { constructor; [|constructor]. auto. }
+  exists r. unfold gen_calc_estimate. rewrite Hr. cbn [py_bind py_ret]. split; [reflexivity|].
+  destruct r as [xs]. cbn [r_vars] in *. destruct xs as [|x [|y t]]; cbn in Hlen; try discriminate.
+  inversion Hall as [|? ? [Hx1 Hx2] _]; subst.
+  assert (E : x = vl) by (apply (list_eq_of_veq (qt_n q)); [exact Hx1|exact Hvl|exact Hx2]). subst x.
+  split; reflexivity. Qed.
 End E.
 
 Print Assumptions gen_is_fullrank_matA_eq.
@@ -151,3 +184,6 @@ Print Assumptions gen_complete_tester_set_recovers.
 Print Assumptions gen_guard_iff_invertible.
 Print Assumptions gen_sequence_is_map.
 Print Assumptions gen_sample_counts_irrelevant.
+Print Assumptions gen_estimated_qoperation_eq.
+Print Assumptions gen_estimated_qoperation_sequence_eq.
+Print Assumptions gen_exact_data_returns_object.
